@@ -356,6 +356,9 @@ func DerivedFrom(q string) ExprPred {
 			}
 			all := true
 			for _, d := range defs {
+				if _, isDecl := d.Stmt.(*ast.ValueSpec); isDecl && d.Rhs == nil {
+					continue // `var x T` zero-value declaration, assigned later
+				}
 				if d.Rhs == nil || !rec(c, d.Rhs, depth-1) {
 					all = false
 				}
